@@ -81,6 +81,8 @@ inductive BTerm where
   | neq (a b : NTerm)
 end
 
+deriving instance DecidableEq for ITerm, NTerm, BTerm
+
 /-- a valuation of the atoms -/
 structure Rho (K : Type) where
   i : Nat → Int
@@ -125,12 +127,13 @@ def BTerm.eval {K : Type} [PyNum K] (ρ : Rho K) : BTerm → Bool
 end
 
 /-! smart constructors: literal folding (so that concrete runs never branch) -/
-def ITerm.mkAdd : ITerm → ITerm → ITerm
-  | .lit a, .lit b => .lit (a + b)
-  | a, b => .add a b
 def ITerm.mkSub : ITerm → ITerm → ITerm
   | .lit a, .lit b => .lit (a - b)
-  | a, b => .sub a b
+  | a, b => if a = b then .lit 0 else .sub a b
+def ITerm.mkAdd : ITerm → ITerm → ITerm
+  | .lit a, .lit b => .lit (a + b)
+  | a, .neg b => ITerm.mkSub a b
+  | a, b => .add a b
 def ITerm.mkMul : ITerm → ITerm → ITerm
   | .lit a, .lit b => .lit (a * b)
   | a, b => .mul a b
@@ -152,13 +155,13 @@ def BTerm.mkNot : BTerm → BTerm
   | b => .not b
 def BTerm.mkIlt : ITerm → ITerm → BTerm
   | .lit a, .lit b => .lit (decide (a < b))
-  | a, b => .ilt a b
+  | a, b => if a = b then .lit false else .ilt a b
 def BTerm.mkIle : ITerm → ITerm → BTerm
   | .lit a, .lit b => .lit (decide (a ≤ b))
-  | a, b => .ile a b
+  | a, b => if a = b then .lit true else .ile a b
 def BTerm.mkIeq : ITerm → ITerm → BTerm
   | .lit a, .lit b => .lit (decide (a = b))
-  | a, b => .ieq a b
+  | a, b => if a = b then .lit true else .ieq a b
 
 /-! ### decision trees -/
 
@@ -218,6 +221,122 @@ theorem denote_of_paths {K : Type} [PyNum K] (ρ : Rho K) (Q : α → Prop) :
         rcases List.mem_cons.1 hcb with rfl | hcb
         · simpa using hc
         · exact hq cb hcb
+
+/-! Pruned path enumeration: a node whose condition (up to negations) was already decided higher up
+on the path is not a choice point — only the consistent branch is followed (and the other one is
+never evaluated: the subtrees are thunks).  This is what keeps the symbolic execution of loops
+finite: without it a `while` whose exit test repeats an earlier test is unrolled along
+contradictory paths until the fuel runs out. -/
+
+/-- strip negations: the positive condition and whether its value is flipped -/
+def _root_.Pams.Py.BTerm.core : BTerm → BTerm × Bool
+  | .not c => (c.core.1, !c.core.2)
+  | c => (c, false)
+
+theorem _root_.Pams.Py.BTerm.core_eval {K : Type} [PyNum K] (ρ : Rho K) :
+    ∀ c : BTerm, c.eval ρ = ((c.core.1.eval ρ) ^^ c.core.2)
+  | .not c => by
+    have ih := BTerm.core_eval ρ c
+    simp only [BTerm.eval, BTerm.core, ih]
+    cases c.core.1.eval ρ <;> cases c.core.2 <;> rfl
+  | .lit _ | .atom _ | .ilt _ _ | .ile _ _ | .ieq _ _ | .nlt _ _ | .nle _ _ | .neq _ _ => by
+    simp [BTerm.core]
+
+def lookupB (d : BTerm) : List (BTerm × Bool) → Option Bool
+  | [] => match d with
+    | .neq a b => if a = b then some true else none     -- `x == x` on floats (no NaN: hypothesis `hrefl` below)
+    | _ => none
+  | (c, b) :: rest => if c = d then some b else lookupB d rest
+
+theorem lookupB_sound {K : Type} [PyNum K] (hrefl : ∀ x : K, PyNum.beq x x = true) (ρ : Rho K) (d : BTerm) :
+    ∀ (known : List (BTerm × Bool)) (b : Bool), (∀ kb ∈ known, kb.1.eval ρ = kb.2) →
+      lookupB d known = some b → d.eval ρ = b
+  | [], b, _, h => by
+    unfold lookupB at h
+    split at h
+    · rename_i x y
+      split at h
+      · rename_i hxy
+        simp only [Option.some.injEq] at h
+        subst hxy; subst h
+        simp [BTerm.eval, hrefl]
+      · simp at h
+    · simp at h
+  | (c, v) :: rest, b, hk, h => by
+    unfold lookupB at h
+    split at h
+    · rename_i hc
+      have := hk (c, v) (by simp)
+      simp only [Option.some.injEq] at h
+      subst hc; subst h; exact this
+    · exact lookupB_sound hrefl ρ d rest b (fun kb hkb => hk kb (List.mem_cons_of_mem _ hkb)) h
+
+/-- root-to-leaf paths that are not syntactically contradictory; `known`: the positive conditions
+decided so far with their values -/
+def pathsP (known : List (BTerm × Bool)) : Tree α → List (List (BTerm × Bool) × α)
+  | leaf a => [([], a)]
+  | node c t f =>
+    match lookupB c.core.1 known with
+    | some b => if (b ^^ c.core.2) then (t ()).pathsP known else (f ()).pathsP known
+    | none =>
+      ((t ()).pathsP ((c.core.1, !c.core.2) :: known)).map (fun p => ((c, true) :: p.1, p.2)) ++
+      ((f ()).pathsP ((c.core.1, c.core.2) :: known)).map (fun p => ((c, false) :: p.1, p.2))
+
+/-- soundness of the pruned enumeration -/
+theorem denote_of_pathsP {K : Type} [PyNum K] (hrefl : ∀ x : K, PyNum.beq x x = true) (ρ : Rho K) (Q : α → Prop) :
+    ∀ (t : Tree α) (known : List (BTerm × Bool)), (∀ kb ∈ known, kb.1.eval ρ = kb.2) →
+      (∀ p ∈ t.pathsP known, (∀ cb ∈ p.1, cb.1.eval ρ = cb.2) → Q p.2) → Q (t.denote ρ)
+  | leaf a, _, _, h => by
+    simpa [denote] using h ([], a) (by simp [pathsP]) (by simp)
+  | node c t f, known, hk, h => by
+    have hce := BTerm.core_eval ρ c
+    unfold pathsP at h
+    unfold denote
+    split at h
+    · rename_i b hb
+      have hd := lookupB_sound hrefl ρ c.core.1 known b hk hb
+      have hcv : c.eval ρ = (b ^^ c.core.2) := by rw [hce, hd]
+      by_cases hx : (b ^^ c.core.2) = true
+      · rw [if_pos hx] at h
+        rw [if_pos (by rw [hcv]; exact hx)]
+        exact denote_of_pathsP hrefl ρ Q (t ()) known hk h
+      · rw [if_neg hx] at h
+        rw [if_neg (by rw [hcv]; exact hx)]
+        exact denote_of_pathsP hrefl ρ Q (f ()) known hk h
+    · by_cases hc : c.eval ρ = true
+      · rw [if_pos hc]
+        refine denote_of_pathsP hrefl ρ Q (t ()) ((c.core.1, !c.core.2) :: known) ?_ ?_
+        · intro kb hkb
+          rcases List.mem_cons.1 hkb with rfl | hkb
+          · simp only
+            rw [hce] at hc
+            cases h1 : c.core.1.eval ρ <;> cases h2 : c.core.2 <;> simp_all
+          · exact hk kb hkb
+        · intro p hp hq
+          refine h ((c, true) :: p.1, p.2) ?_ ?_
+          · simp only [List.mem_append, List.mem_map]
+            exact Or.inl ⟨p, hp, rfl⟩
+          · intro cb hcb
+            rcases List.mem_cons.1 hcb with rfl | hcb
+            · exact hc
+            · exact hq cb hcb
+      · rw [if_neg hc]
+        have hc' : c.eval ρ = false := by simpa using hc
+        refine denote_of_pathsP hrefl ρ Q (f ()) ((c.core.1, c.core.2) :: known) ?_ ?_
+        · intro kb hkb
+          rcases List.mem_cons.1 hkb with rfl | hkb
+          · simp only
+            rw [hce] at hc'
+            cases h1 : c.core.1.eval ρ <;> cases h2 : c.core.2 <;> simp_all
+          · exact hk kb hkb
+        · intro p hp hq
+          refine h ((c, false) :: p.1, p.2) ?_ ?_
+          · simp only [List.mem_append, List.mem_map]
+            exact Or.inr ⟨p, hp, rfl⟩
+          · intro cb hcb
+            rcases List.mem_cons.1 hcb with rfl | hcb
+            · exact hc'
+            · exact hq cb hcb
 
 end Tree
 
